@@ -52,3 +52,23 @@ Example C20_example :
              {| srv_target := [99]; srv_port := 3; srv_weight := 10; srv_priority := 0 |} ] in
   get_highest_answer l = Ok {| srv_target := [99]; srv_port := 3; srv_weight := 10; srv_priority := 0 |}.
 Proof. reflexivity. Qed.
+
+(* ---- lookup_dc / async_lookup_dc tied to the model (flows).  W resolve is the world of Flow/World_core.v: the DNS resolver
+   (outside the library) is a function from the queried name to the answer set; _get_highest_answer is Model/Dns.v
+   get_highest_answer (it contains a lambda, which the translator refuses: its sort key is the kernel k_srv_key above). *)
+From V Require Import Prelude.PyAst Prelude.PyWorld gen.Flows Flow.World_core Proofs.Flow_core_dns.
+Theorem C20_flow_lookup_dc : forall resolve fuel domain,
+  run (W resolve) fuel k_flow_lookup_dc [vopt_str domain]
+  = (let* l := resolve (query_name domain) in let* r := get_highest_answer l in Ok (VO (OSrv r))).
+Proof. exact flow_lookup_dc. Qed.
+Print Assumptions C20_flow_lookup_dc.
+Theorem C20_flow_async_lookup_dc : forall resolve fuel domain,
+  run (W resolve) fuel k_flow_async_lookup_dc [vopt_str domain]
+  = (let* l := resolve (query_name domain) in let* r := get_highest_answer l in Ok (VO (OSrv r))).
+Proof. exact flow_async_lookup_dc. Qed.
+Print Assumptions C20_flow_async_lookup_dc.
+(* the async twin computes what the sync function computes, for every resolver and argument *)
+Theorem C20_flow_lookup_dc_twin : forall resolve fuel domain,
+  run (W resolve) fuel k_flow_async_lookup_dc [vopt_str domain] = run (W resolve) fuel k_flow_lookup_dc [vopt_str domain].
+Proof. exact flow_lookup_dc_twin. Qed.
+Print Assumptions C20_flow_lookup_dc_twin.
